@@ -791,3 +791,58 @@ def rule_piecewise_loop_clamped(ctx):
                              "piece beyond the gap" % (piece, rem, piece))
     ctx.floor("PIECECLAMP", 2, n, "(piecewise fill loops)")
     return n
+
+
+def rule_rank_fits_arrays(ctx):
+    """RANKBOUND (C20): the SD routines keep per-dimension values of one data set in local arrays of a fixed size (`long Start[N]`)
+    and fill them in a loop over the data set's rank.  The rank is fixed at creation and nothing later checks it, so the one
+    gate — the failing comparison `rank > K` in SDcreate — must use a K no larger than the smallest such array: with a larger K a
+    data set is created whose later reads and writes run over those arrays."""
+    import re
+    from .facts import kind, strip, walk, render, is_int, int_val, int_name
+    prog = ctx.prog
+    smallest = None
+    where = None
+    arrays = 0
+    for f in prog.lib_funcs():
+        if not f.rel.endswith("mfhdf/src/mfsd.c"):
+            continue
+        loopvars = set()
+        for b in f.blocks.values():
+            t = b.get("term")
+            if t and t.get("cond") is not None:
+                c = strip(t["cond"])
+                if kind(c) == "bin" and c[1] in ("<", "<=") and kind(strip(c[2])) == "var" and "count" in render(c[3]):
+                    loopvars.add(strip(c[2])[1])
+        if not loopvars:
+            continue
+        for _b, _i, s, x in f.nodes(True):
+            if x[0] == "idx" and kind(strip(x[1])) == "var" and strip(x[1])[2] == "l" and kind(strip(x[2])) == "var" and strip(x[2])[1] in loopvars:
+                m = re.search(r"\[(\d+)\]$", strip(x[1])[3] or "")
+                if m:
+                    arrays += 1
+                    v = int(m.group(1))
+                    if smallest is None or v < smallest:
+                        smallest, where = v, "%s:%s" % (f.name, strip(x[1])[1])
+    g = prog.func("SDcreate")
+    if g is None or smallest is None:
+        ctx.unrecognised("RANKBOUND", "RANKBOUND:SDcreate", "-", "SDcreate or the per-dimension arrays were not found")
+        return 0
+    gate = None
+    for b in g.blocks.values():
+        t = b.get("term")
+        if t and t.get("cond") is not None:
+            for c in walk(t["cond"], True):
+                if c[0] == "bin" and c[1] in (">", ">=") and kind(strip(c[2])) == "var" and strip(c[2])[1] == "rank" and is_int(c[3]) and int_name(c[3]):
+                    k = int_val(c[3]) - (1 if c[1] == ">=" else 0)
+                    if gate is None or k < gate[0]:
+                        gate = (k, int_name(c[3]) or str(int_val(c[3])), t.get("l", g.line))
+    key = "RANKBOUND:SDcreate:rank"
+    if gate is None:
+        ctx.violated("RANKBOUND", key, g.where(), "SDcreate does not compare `rank` with an upper limit, but %d per-dimension arrays of the SD routines hold at most %d entries (%s)" % (arrays, smallest, where))
+    elif gate[0] > smallest:
+        ctx.violated("RANKBOUND", key, g.where(gate[2]), "SDcreate admits a rank of up to %d (%s), but the per-dimension arrays of the SD routines hold %d entries (%s): reads and writes of such a data set run over them" % (gate[0], gate[1], smallest, where))
+    else:
+        ctx.holds("RANKBOUND", key, g.where(gate[2]), "rank is limited to %d (%s); the smallest per-dimension array holds %d entries (%d array uses checked)" % (gate[0], gate[1], smallest, arrays), nontrivial=True)
+    ctx.floor("RANKBOUND", 6, arrays, "(per-dimension local arrays indexed up to the rank)")
+    return 1
